@@ -368,7 +368,7 @@ class ExplicitSymplecticIntegrator(TableauIntegrator):
             self.staggered_mask = D.ar_numpy.zeros(sys_dim, dtype=D.autoray.to_backend_dtype('bool', like=self.tableau_intermediate), like=self.tableau_intermediate)
             self.staggered_mask[staggered_mask] = 1
         else:
-            self.staggered_mask = D.astype(staggered_mask, D.autoray.to_backend_dtype('bool', like=self.tableau_intermediate), like=self.tableau_intermediate)
+            self.staggered_mask = D.ar_numpy.astype(D.ar_numpy.asarray(staggered_mask, like=self.tableau_intermediate), D.autoray.to_backend_dtype('bool', like=self.tableau_intermediate))
 
         self.kick_mask = D.ar_numpy.asarray(self.staggered_mask, **self.array_constructor_kwargs)
         self.drift_mask = 1.0 - self.kick_mask
@@ -475,12 +475,7 @@ def generate_richardson_integrator(basis_integrator, richardson_iter=2):
                 integrator.is_adaptive = False
             self.basis_order = self.basis_integrators[0].order
             if 'staggered_mask' in kwargs:
-                if kwargs['staggered_mask'] is None:
-                    staggered_mask = D.arange(sys_dim[0] // 2, sys_dim[0], dtype=D.int64)
-                    self.staggered_mask = D.zeros(sys_dim, dtype=D.bool)
-                    self.staggered_mask[staggered_mask] = 1
-                else:
-                    self.staggered_mask = D.to_type(kwargs['staggered_mask'], D.bool)
+                self.staggered_mask = self.basis_integrators[0].staggered_mask
 
             if self.dtype is not None:
                 if D.backend_like_dtype(self.dtype) == 'torch':
